@@ -153,7 +153,7 @@ func c05Atom(r *rand.Rand, idx int) string {
 }
 
 func c05Wrap(r *rand.Rand, atom string) (main string, mod string) {
-	switch r.Intn(9) {
+	switch r.Intn(11) {
 	case 0:
 		return "w := func() {\n  " + atom + "\n  return 1\n}\nres := w()\n", ""
 	case 1:
@@ -168,6 +168,15 @@ func c05Wrap(r *rand.Rand, atom string) (main string, mod string) {
 		return "m := import(\"hostile\")\n", atom + "\nexport 1\n"
 	case 6:
 		return "if true { if true { for v in [1] {\n  " + atom + "\n} } }\n", ""
+	case 7:
+		// the failing code sits in one of several module files (its positions are looked up among them)
+		imp := []string{"f0 := import(\"fill0\")", "f1 := import(\"fill1\")", "f2 := import(\"fill2\")", "f3 := import(\"fill3\")", "f4 := import(\"fill4\")"}
+		at := r.Intn(len(imp) + 1)
+		lines := append(append(append([]string{}, imp[:at]...), "m := import(\"hostile\")"), imp[at:]...)
+		if r.Intn(2) == 0 {
+			return strings.Join(lines, "\n") + "\nres := m.run()\n", "export {run: func() {\n  " + atom + "\n  return 1\n}}\n"
+		}
+		return strings.Join(lines, "\n") + "\n", atom + "\nexport 1\n"
 	default:
 		return atom + "\n", ""
 	}
@@ -294,6 +303,9 @@ func (c *c05) RunCase(r *fw.Rec, cs fw.Case) {
 	mm := stdModules()
 	if mod != "" {
 		mm.AddSourceModule("hostile", []byte(mod))
+	}
+	for i := 0; i < 5; i++ {
+		mm.AddSourceModule(fmt.Sprintf("fill%d", i), []byte(fmt.Sprintf("v := %d\nf := func(x) {\n  return x + v\n}\nexport {v: v, f: f}\n", i)))
 	}
 	s.SetImports(mm)
 	s.SetMaxAllocs(2_000_000)
